@@ -31,6 +31,15 @@ CHECKS = {
              "weighted sum is linear. Model rows (exact integers) are pushed through numpy's FFT and must equal channelize() bit for bit "
              "call by call; chunked-vs-one-shot, complex split, linearity and the O(n^2) DFT definition are evaluated on the implementation.",
         design="3/C08", technique="Coq induction over chunk lists (routing, law-free) + exact-integer correspondence through numpy FFT"),
+    "C20": dict(
+        text="Theorems over Z for every configuration admitted by the constructor: exact samples-per-block division and whole PFB windows per "
+             "block; for every requested sub-block count the sub-block plan is positive, only the last may be short, and sums to the block; a "
+             "block draws spb*nb samples (+ one warm-up window at the start); a recording of n blocks draws n*spb*nb + taps*nb; blocks-per-file "
+             "distribution sums to n; get_block_size yields the requested spectra; duration bracket n*tpb <= obs < (n+1)*tpb over Q. The float "
+             "expressions (tbin, time_per_block, get_num_blocks) have binary64 twins compared bit for bit with the backend; small recordings "
+             "log every antenna request and are compared with the model's request plan; totals, PKTIDX/PKTSTOP/SCANLEN and clocks are checked "
+             "against the exact integers on the implementation.",
+        design="3/C20", technique="Coq proof over Z (div/mod, induction over blocks) + PrimFloat kernels + request-log correspondence"),
 }
 
 PENDING_REASON = "check not built yet in this session (planned in DESIGN.md section 3); no claim is made for it in this commit"
